@@ -81,6 +81,34 @@ static Case cases[] = {
              return printf("expected F1 90 80 80, got %u units starting %02X\n", s->Length(), (unsigned char)s->First()[0]), 1;
          return 0;
      }},
+    // ---- C14 sequences
+    {"array_append_array_keeps_front", [] {
+         Array<String<char>> a, b;
+         a += String<char>("x"); a += String<char>("y");
+         b += String<char>("p"); b += String<char>("q");
+         a += b;
+         const String<char> *s = a.First();
+         int ok = (a.Size() == 4) && (s[0] == "x") && (s[1] == "y") && (s[2] == "p") && (s[3] == "q");
+         return ok ? 0 : (printf("a += b gave %s %s .. (size %u)\n", s[0].First(), s[1].First(), a.Size()), 1);
+     }},
+    {"stringstream_append_self", [] {
+         StringStream<char> s;
+         s += "abcdefgh";
+         for (int i = 0; i < 6; i++) s += s;
+         return (s.Length() == 512U) ? 0 : 1;
+     }},
+    {"string_assign_own_pointer", [] {
+         String<char> s{"hello world"};
+         s = (s.First() + 6);
+         return (s == "world") ? 0 : (printf("got %s\n", s.First()), 1);
+     }},
+    {"string_equals_cstr_on_empty", [] {
+         String<char> s;
+         int bad = (s == "a") + !(s == "");
+         const char *np = nullptr;
+         bad += (s == np) ? 0 : 0;   // must not crash
+         return bad ? 1 : 0;
+     }},
     // ---- C19 BigInt
     {"bigint_zero_shift_left_word", [] {
          BigInt<SizeT64, 256U> z;
